@@ -201,6 +201,12 @@ def named_family():
     out.append({"type": "record", "name": "R", "fields": [
         {"name": "a", "type": {"type": "record", "name": "nullable", "fields": [{"name": "x", "type": "int", "default": 1}]}},
         {"name": "b", "type": "nullable"}]})
+    # bytes / fixed defaults in the specification's string form
+    out.append({"type": "record", "name": "BD", "fields": [
+        {"name": "k", "type": "int"}, {"name": "b", "type": "bytes", "default": "\u00ff\u0001"},
+        {"name": "f", "type": {"type": "fixed", "name": "F2", "size": 2}, "default": "ab"}, {"name": "g", "type": "F2", "default": "\u0000\u00fe"},
+        {"name": "r", "type": {"type": "record", "name": "In", "fields": [{"name": "x", "type": "bytes"}]}, "default": {"x": "zz"}},
+        {"name": "u", "type": ["bytes", "null"], "default": "q"}]})
     # {"type": "int"}-style wrapped primitives
     out.append(rec("R", {"type": "int"}, {"type": "string"}, {"type": "null"}))
     out.append({"type": "array", "items": {"type": "long"}})
